@@ -13,11 +13,12 @@ import (
 // C17 — no silent truncation: long lines and large files are processed completely.
 
 type c17Case struct {
-	Cmd     string `json:"cmd"`     // generate | generate-include | generate-except | format | renumber | copyright | update
-	Len     int    `json:"len"`     // length of the long line
-	Pos     string `json:"pos"`     // first | middle | last
-	NoFinal bool   `json:"nofinal"` // no newline at the end of the file
-	Others  int    `json:"others"`  // number of short lines around it
+	Cmd     string      `json:"cmd"`          // generate | generate-include | generate-except | format | renumber | copyright | update
+	Len     int         `json:"len"`          // length of the long line
+	Pos     string      `json:"pos"`          // first | middle | last
+	NoFinal bool        `json:"nofinal"`      // no newline at the end of the file
+	Others  int         `json:"others"`       // number of short lines around it
+	IO      *ioScenario `json:"io,omitempty"` // an I/O-fault scenario (the other fields are unused then)
 }
 
 func longBody(n int) string {
@@ -60,6 +61,9 @@ func (c *c17Case) join(lines []string) string {
 
 func c17Check(env *core.Env, cc core.Case) core.Verdict {
 	c := cc.(*c17Case)
+	if c.IO != nil {
+		return ioScenarioCheck(env, "C17", c.IO)
+	}
 	root := emptyRoot(env)
 	defer rmCase(root)
 	v := core.Verdict{Status: core.Held, Features: []string{"cmd:" + c.Cmd, fmt.Sprintf("len:%d", c.Len), "pos:" + c.Pos}, Counts: map[string]int{}}
@@ -515,6 +519,10 @@ func init() {
 						}
 					}
 				}
+			}
+			// a file that cannot be read to its end is the other way of losing lines without noticing
+			for _, sc := range ioCases("C17") {
+				cs = append(cs, &c17Case{Cmd: "io", IO: sc})
 			}
 			return cs
 		},
